@@ -17,6 +17,7 @@ RULE = ("Honest pair under generated schedules with `message` duplication/reorde
         "quiescence, those obtained after closed fired with a failure, none fired twice. Non-trivial = a "
         "reorder/dup was applied, or get_*() was requested after closed, or a loss happened. Distinct = "
         "(features, event-kind trace).")
+RULE += (' Added later: graceful server closes pass through the WebSocket CLOSING window.')
 ASSUMPTIONS = ["simulated WebSocket layer; real server", "Deferred firing observed through callbacks on the "
                "simulated eventual queue"]
 
